@@ -738,7 +738,11 @@ pub struct HistOut {
 }
 
 pub fn run_history(rep: &mut Report, prop: &str, rng: &mut Rng, n: usize, nops: usize, to_coq: bool, scripted: Option<&[Op]>) {
-    let mut buf = vec![0u8; n];
+    // the slab sits at offset 0..7 from an 8-byte aligned address
+    static SHIFT: std::sync::atomic::AtomicUsize = std::sync::atomic::AtomicUsize::new(0);
+    let shift = SHIFT.fetch_add(1, std::sync::atomic::Ordering::Relaxed) % 8;
+    let mut shifted = emit::Shifted::new(&vec![0u8; n], shift);
+    let buf: &mut [u8] = shifted.bytes_mut();
     let mut o = Oracle { n, es: vec![] };
     let mut items: Vec<String> = Vec::new();
     let mut ops_done: Vec<Op> = Vec::new();
@@ -751,7 +755,7 @@ pub fn run_history(rep: &mut Report, prop: &str, rng: &mut Rng, n: usize, nops: 
             Some(s) => s[step].clone(),
             None => gen_op(rng, &o, fail_bias),
         };
-        let before = buf.clone();
+        let before = buf.to_vec();
         let o_before = o.clone();
         let cur_len = match &op {
             Op::Write { t, rep, .. } => o.find(*t, *rep).map(|i| o.es[i].1.len()).unwrap_or(0),
@@ -759,7 +763,7 @@ pub fn run_history(rep: &mut Report, prop: &str, rng: &mut Rng, n: usize, nops: 
         };
         let mut o_next = o.clone();
         let expect = if diverged { None } else { o_next.apply(&op) };
-        let got = apply_op(&mut buf, &op);
+        let got = apply_op(&mut *buf, &op);
         ops_done.push(op.clone());
         rep.count(&format!("op:{}:{}", op_name(&op), got.kind()));
         if got.is_ok() {
@@ -779,7 +783,7 @@ pub fn run_history(rep: &mut Report, prop: &str, rng: &mut Rng, n: usize, nops: 
                 }
             }
             let mut mon = Mon { rep, prop };
-            mon.after_op(&mut buf, &before, &o_before, &o_next, &op, expect, &got, &ops_done);
+            mon.after_op(&mut *buf, &before, &o_before, &o_next, &op, expect, &got, &ops_done);
             let ok = match (expect, &got) {
                 (Some(e), Res::Ok(g)) => e == *g,
                 (None, Res::Err(_)) => true,
@@ -806,7 +810,7 @@ pub fn run_history(rep: &mut Report, prop: &str, rng: &mut Rng, n: usize, nops: 
                         let miss = rng.chance(1, 4);
                         let (t, r) = pick_entry(rng, &o, miss);
                         let view = *rng.pick(&[View::Mut, View::Borrowed, View::Owned]);
-                        let g = get_bytes_view(&mut buf, t, r, view);
+                        let g = get_bytes_view(&mut *buf, t, r, view);
                         items.push(format!(
                             "IGet {} {} {}",
                             emit_tag(t),
@@ -820,12 +824,12 @@ pub fn run_history(rep: &mut Report, prop: &str, rng: &mut Rng, n: usize, nops: 
                         let cur = o.find(t, r).map(|i| o.es[i].1.len()).unwrap_or(3);
                         let size = if TYPED_SIZES.contains(&cur) && rng.chance(2, 3) { cur } else { *rng.pick(&TYPED_SIZES) };
                         let view = *rng.pick(&[View::Mut, View::Borrowed, View::Owned]);
-                        let g = get_typed_view(&mut buf, t, r, size, view);
+                        let g = get_typed_view(&mut *buf, t, r, size, view);
                         items.push(format!("IGetT {} {} {} {}", emit_tag(t), r, size, g.emit(|(off, _)| format!("{}", off))));
                     }
                     3 => {
                         let view = *rng.pick(&[View::Mut, View::Borrowed, View::Owned]);
-                        let g = discs_view(&mut buf, view);
+                        let g = discs_view(&mut *buf, view);
                         items.push(format!(
                             "IDiscs {}",
                             g.emit(|ds| emit::list(&ds.iter().map(emit_raw_tag).collect::<Vec<_>>()))
@@ -833,7 +837,7 @@ pub fn run_history(rep: &mut Report, prop: &str, rng: &mut Rng, n: usize, nops: 
                     }
                     _ => {
                         let view = *rng.pick(&[View::Mut, View::Borrowed, View::Owned]);
-                        let g = open_view(&mut buf, view);
+                        let g = open_view(&mut *buf, view);
                         items.push(format!("IOpen {}", g.emit(|_| "tt".to_string())));
                     }
                 }
